@@ -336,7 +336,9 @@ func (p *Program) Explore(name string, entry *ssa.Function, args []Value, opts O
 	r.cond = sync.NewCond(&r.mu)
 	r.deadline = time.Now().Add(opts.Timeout)
 	t0 := time.Now()
+	p.initMu.Lock()
 	st := p.init.clone()
+	p.initMu.Unlock()
 	st.run = r
 	st.pushFrame(entry, args, nil)
 	r.queue = append(r.queue, st)
